@@ -672,3 +672,88 @@ class PolygonObjectsAndReaders(_NumericJob):
                     bad.append(("text_and_fits_files_give_the_same_polygons_and_lookup", "%s: lookup %s, the caps define %s" % (label, list(np.asarray(idx)), exp)))
                     break
         return bad
+
+
+# ---------------------------------------------------------------------------
+# is_in_window for any number of polygons and points: loop cut with the "first containing polygon so far" invariant (level P)
+# ---------------------------------------------------------------------------
+_MEMB = z3.Function("INPOLY", z3.IntSort(), z3.IntSort(), z3.BoolSort())      # INPOLY(k, q): point q lies in polygon k (contract of is_in_polygon)
+
+
+class _PolyList:
+    """the polygon list: only len() and indexing are used; element k is a token carrying k"""
+    _pyvc_symbolic = True
+
+    def __init__(self, n):
+        self.n = n
+
+    def __len__(self):
+        raise TypeError("symbolic length: use s_len")
+
+    def slen(self):
+        return self.n
+
+    def __getitem__(self, k):
+        return types.SimpleNamespace(k=k)
+
+
+class _Points:
+    """the point array: .shape and row selection by an index array (the selection is handed to is_in_polygon, stubbed by its contract)"""
+    _pyvc_symbolic = True
+
+    def __init__(self, n):
+        self.shape = (n, 3)
+
+    def __getitem__(self, idx):
+        return types.SimpleNamespace(idx=idx)
+
+
+def _first_upto(inpoly_q, q, c):
+    """in_polygon[q] is the first polygon k < c containing point q, or -1"""
+    v = inpoly_q
+    return S.OR(S.AND(v == -1, S.forall(0, c, lambda k: S.NOT(SBool(_MEMB(k.z, A._zi(q)))))),
+                S.AND(v >= 0, v < c, SBool(_MEMB(A._zi(v), A._zi(q))), S.forall(0, v, lambda k: S.NOT(SBool(_MEMB(k.z, A._zi(q)))))))
+
+
+@register("C12")
+class IsInWindowAllSizes(FunctionContract):
+    name = "is_in_window_all_sizes"
+    target = "pydl.pydlutils.mangle:is_in_window"
+    level = "P"
+    int_mode = "math"
+    assumptions = ["is_in_polygon replaced by its contract: element j of its result is INPOLY(k, index of the j-th selected point) (uninterpreted membership relation)",
+                   "int32 polygon indices as mathematical integers (fewer than 2**31 polygons)", "T-nonzero", "any number of polygons and points"]
+    max_paths = 200
+
+    def inputs(self):
+        return dict(npoly=sym_int("npoly"), npoints=sym_int("npoints"))
+
+    def requires(self, npoly, npoints):
+        return S.AND(npoly >= 0, npoints >= 0)
+
+    def extra_globals(self):
+        def is_in_polygon(polygon, points, ncaps=0):
+            k = A._zi(polygon.k)
+            idx = points.idx
+            return A.SArr.from_fn(A.BOOL, idx.n, lambda j: _MEMB(k, A._as_int(idx, j)))
+        return dict(is_in_polygon=is_in_polygon)
+
+    def call(self, fn, npoly, npoints):
+        return fn(_PolyList(npoly), _Points(npoints))
+
+    def ensures(self, result, npoly, npoints):
+        inside, idx = result
+        return {"lengths": S.AND(S.size(idx) == npoints, S.size(inside) == npoints),
+                "first_containing_polygon_or_minus_one": S.forall(0, npoints, lambda q: _first_upto(S.el(idx, q), q, npoly)),
+                "inside_iff_some_polygon_contains": S.forall(0, npoints, lambda q: S.iff(S.el(inside, q), S.el(idx, q) >= 0))}
+
+    def loop_specs(self, a):
+        npoly, npoints = a["npoly"], a["npoints"]
+
+        def inv(v):
+            return [v.in_polygon.slen() == npoints, v.curr_polygon >= 0, v.curr_polygon <= npoly,
+                    S.forall(0, npoints, lambda q: _first_upto(S.el(v.in_polygon, q), q, v.curr_polygon))]
+        return {"curr_polygon < npoly": dict(inv=inv)}
+
+    def samples(self, rng):
+        return iter(())
